@@ -272,12 +272,14 @@ class Holder:
 def alphabet(names, kind, iscsd):
     key = ["Gxx", "coh" if iscsd else "asd", "Hxy" if iscsd else "ps", "Gxy_dev" if iscsd else "Gxx_dev", "D", "f"]
     ops = []
+    # drawing a result must not change it: plot calls (with a 3-sigma error band, which reads the cached deviations) are operations too
+    plots = [("plot", w, True, 3) for w in ((None, "coh", "csd", "cf") if iscsd else (None, "psd"))]
     if kind == "full":
-        ops += [("get", a) for a in names]
+        ops += [("get", a) for a in names] + plots
     elif kind == "copies+key":
-        ops += [("get", a) for a in key if a in names]
+        ops += [("get", a) for a in key if a in names] + plots[:2]
     elif kind == "reads":
-        ops += [("get", a) for a in names]
+        ops += [("get", a) for a in names] + plots
         return ops
     ops += [("meas", "Gxx", "grid"), ("meas", "coh" if iscsd else "asd", "mid"), ("meas", "Hxy" if iscsd else "ENBW", "outside")]
     ops += [("df",), ("copy",), ("deepcopy",), ("pickle:2",), ("pickle:3",), ("pickle:4",), ("pickle:5",)]
@@ -293,6 +295,17 @@ def apply_op(h, op, f):
         return r.get_measurement(q, op[1])
     if op[0] == "df":
         return r.to_dataframe()
+    if op[0] == "plot":
+        import matplotlib
+        matplotlib.use("Agg", force=False)
+        import matplotlib.pyplot as plt
+        try:
+            out = r.plot(op[1], errors=op[2], sigma=op[3])
+            plt.close(out[0])
+            return None
+        except Exception as e:  # noqa: BLE001  (whether a given plot is possible for this result is not the subject; that it behaves the same after any history is)
+            plt.close("all")
+            return np.array([hash(type(e).__name__) % 1000], dtype=np.int64)
     h.obj = rm.roundtrip(r, op[0])
     return None
 
@@ -345,7 +358,7 @@ def explore(raw, ops, depth, tag, case0, max_states=400000):
 
     def invariant(hist, op, h, obs, allobs):
         res = []
-        opn = op[0] + ("/" + op[1] if len(op) > 1 else "")
+        opn = op[0] + ("/" + str(op[1]) if len(op) > 1 else "")
         if obs[0] == "raised":
             return [(f"{tag}/raises/{opn}", f"after {list(hist)} the operation {op} raised {obs[1]}")]
         r = h.obj
